@@ -136,6 +136,8 @@ def attribute(ck, pid, traces, fails, extra_props=()):
                 continue  # likelihood evaluated in other processes: provenance / evaluation counts unobservable
             prop = psrun.CLAUSE_PROPERTY.get(cl)
             props = {prop} if prop else set()
+            if cl == "RW_RefAgrees" and (tr["meta"].get("conf") or {}).get("support"):
+                props.add("C11")  # with a zero-likelihood region the recorded beta=0 evidences must enter the mixture formula
             if cl == "MB_SameSlots":
                 props.add("C14")  # the kernel must receive the labels the resampler assigned (as well as the same records)
             if tr["meta"].get("resumed") and cl in RESUME_CLAUSES:
